@@ -187,6 +187,18 @@ def coq_props(ctx, pid=None, extra_targets=()):
     return res
 
 
+def audit():
+    rc, out = sh([os.path.join(ROOT, "tools", "audit.sh")])
+    return rc == 0, out
+
+
+def coqchk(pid, timeout=3000):
+    """Independent re-check of Props/<ID>.vo and everything it depends on (thorough tier)."""
+    with _Lock("coq"):
+        rc, out = sh(["coqchk", "-silent", "-o", "-Q", ".", NS, "%s.Props.%s" % (NS, pid)], cwd=COQ, timeout=timeout)
+    return rc == 0, out[-4000:]
+
+
 def theorem_statements(pid, limit=6):
     src = os.path.join(COQ, "Props/%s.v" % pid)
     if not os.path.exists(src):
@@ -199,6 +211,17 @@ def theorem_statements(pid, limit=6):
         if len(out) >= limit:
             break
     return out
+
+
+def write_if_changed(path, text):
+    """Write a generated file only when its content changed (keeps make's timestamps quiet)."""
+    old = open(path).read() if os.path.exists(path) else None
+    if old != text:
+        os.makedirs(os.path.dirname(path), exist_ok=True)
+        with open(path, "w") as f:
+            f.write(text)
+        return True
+    return False
 
 
 # ---------------------------------------------------------------- Go harness
@@ -468,6 +491,17 @@ def standard_check(ctx, spec):
     pid = ctx.pid
     proofs = coq_props(ctx, pid, extra_targets=spec.get("extra_targets", ()))
     broken, failures = [], []
+    aok, aout = audit()
+    if not aok:
+        proofs["ok"] = False
+        proofs["discharged"] = 0
+        broken.append("audit: the development contains Admitted/Axiom/Parameter or disables a kernel check: " + aout[-800:])
+    if ctx.tier == "thorough" and proofs["ok"]:
+        cok, cout = coqchk(pid)
+        proofs["coqchk"] = cout[-1500:]
+        if not cok:
+            proofs["ok"] = False
+            broken.append("coqchk rejects Props/%s.vo: %s" % (pid, cout[-800:]))
     if not proofs["ok"]:
         broken.append("proof obligations of Props/%s.v do not check: %s" % (pid, (proofs.get("broken_files") or proofs.get("nonstd_axioms") or proofs["log"][-800:])))
     h = spec["harness"]
@@ -504,6 +538,8 @@ def standard_check(ctx, spec):
         input_distribution=histogram(cases, "class"),
         trusted_base=spec.get("trusted_base", []),
     )
+    if proofs.get("coqchk"):
+        cov["coqchk"] = proofs["coqchk"]
     for r_ in recs:
         if r_.get("kind") == "info":
             cov.setdefault("info", []).append({k: v for k, v in r_.items() if k != "kind"})
